@@ -22,7 +22,7 @@ from .. import batsys, world
 from ..core import Verdict
 
 IDS = ("C01", "C02")
-BUDGET = {"quick": 3000, "thorough": 20000}
+BUDGET = {"quick": 2500, "thorough": 15000}
 SIZE_BOUNDS = {
     "quick": "1-4 groups x 1-3 batteries x 1-3 inverters; bounds <= 5000 W; exponent in [0,4]; 4% of cases through BatteryManager",
     "thorough": "1-6 groups, same component ranges",
@@ -65,6 +65,9 @@ def strategy(tier: str, pid: str = "C01") -> st.SearchStrategy[Any]:
         "exp": st.one_of(st.sampled_from([0.0, 0.5, 1.0, 1.0, 2.0, 3.0]), st.floats(0.0, 4.0)),
         "req": batsys.request_strategy(),
         "mode": st.sampled_from(["direct"] * 24 + ["manager"]),
+        # further requests served by the *same* algorithm / manager instance (index into: the same request
+        # again, or another generated request), so that state kept between calls is exercised
+        "more": st.lists(st.one_of(st.just("same"), st.just("same"), batsys.request_strategy()), min_size=0, max_size=4),
     })
 
 
@@ -170,45 +173,73 @@ def _check_c02(v: Verdict, case: dict[str, Any], ids: Any, power: float, dist: d
             v.fail(f"group {bids}: no SoC headroom in the requested direction but assigned {gtot!r}")
 
 
+def _requests(case: dict[str, Any], power: float) -> list[float]:
+    out = [power]
+    for extra in case.get("more", []):
+        out.append(out[-1] if extra == "same" else batsys.request_power(case["groups"], extra))
+    return out
+
+
 def _run_direct(case: dict[str, Any], pid: str, v: Verdict, power: float) -> None:
     pairs, ids = _pairs(case)
-    try:
-        res = BatteryDistributionAlgorithm(case["exp"]).distribute_power(power, pairs)
-    except Exception as exc:  # pylint: disable=broad-except
-        v.fail(f"distribute_power raised {type(exc).__name__}: {exc}")
-        return
+    algorithm = BatteryDistributionAlgorithm(case["exp"])
     all_inv = {i for _, iids in ids for i in iids}
-    if set(res.distribution) != all_inv:
-        v.fail(f"distribution keys {sorted(res.distribution)} != inverters {sorted(all_inv)}")
-        return
-    if pid == "C01":
-        _check_c01(v, power, res.distribution, res.remaining_power)
-    else:
-        _check_c02(v, case, ids, power, res.distribution)
+    for n, req in enumerate(_requests(case, power)):
+        try:
+            res = algorithm.distribute_power(req, pairs)
+        except Exception as exc:  # pylint: disable=broad-except
+            v.fail(f"call {n}: distribute_power({req}) raised {type(exc).__name__}: {exc}")
+            return
+        if set(res.distribution) != all_inv:
+            v.fail(f"call {n}: distribution keys {sorted(res.distribution)} != inverters {sorted(all_inv)}")
+            return
+        before = len(v.violations)
+        if pid == "C01":
+            _check_c01(v, req, dict(res.distribution), res.remaining_power)
+        else:
+            _check_c02(v, case, ids, req, dict(res.distribution))
+        if len(v.violations) > before:
+            v.violations[before] = f"call {n} of {len(case.get('more', [])) + 1} on one algorithm instance (request {req}): " \
+                + v.violations[before]
+            return
+    if len(case.get("more", [])) >= 2:
+        v.labels.add("repeated_calls_on_one_instance")
 
 
 def _run_manager(case: dict[str, Any], pid: str, v: Verdict, power: float) -> None:
+    reqs = _requests(case, power)
+
     async def scenario() -> None:
         async with batsys.ManagerWorld(case["groups"]) as mw:
-            result = await mw.request(power, adjust_power=True)
-            calls = dict(mw.api.set_power_calls)
-            if len(calls) != len(mw.api.set_power_calls):
-                v.fail("an inverter received two set_power calls for one request")
-            if not isinstance(result, (Success, PartialFailure)):
-                v.fail(f"admitted request {power!r} answered with {type(result).__name__}: "
-                       f"{getattr(result, 'msg', getattr(result, 'bounds', ''))}")
-                return
-            excess = result.excess_power.as_watts()
-            succeeded = result.succeeded_power.as_watts()
-            if pid == "C01":
-                _check_c01(v, power, calls, excess)
-                tol = 1e-6 * max(1.0, abs(power))
-                if abs(sum(calls.values()) - succeeded) > tol:
-                    v.fail(f"power reported as set {succeeded!r} != power commanded {sum(calls.values())!r}")
-                if abs(succeeded + excess - power) > tol:
-                    v.fail(f"succeeded {succeeded!r} + excess {excess!r} != requested {power!r}")
-            else:
-                _check_c02(v, case, mw.ids, power, calls)
+            for n, req in enumerate(reqs):
+                mw.api.set_power_calls.clear()
+                if n:
+                    await mw.feed()
+                    await world.settle()
+                result = await mw.request(req, adjust_power=True)
+                calls = dict(mw.api.set_power_calls)
+                where = f"request {n} of {len(reqs)} through one BatteryManager ({req} W)"
+                if len(calls) != len(mw.api.set_power_calls):
+                    v.fail(f"{where}: an inverter received two set_power calls for one request")
+                if not isinstance(result, (Success, PartialFailure)):
+                    v.fail(f"{where}: admitted request answered with {type(result).__name__}: "
+                           f"{getattr(result, 'msg', getattr(result, 'bounds', ''))}")
+                    return
+                excess = result.excess_power.as_watts()
+                succeeded = result.succeeded_power.as_watts()
+                before = len(v.violations)
+                if pid == "C01":
+                    _check_c01(v, req, calls, excess)
+                    tol = 1e-6 * max(1.0, abs(req))
+                    if abs(sum(calls.values()) - succeeded) > tol:
+                        v.fail(f"power reported as set {succeeded!r} != power commanded {sum(calls.values())!r}")
+                    if abs(succeeded + excess - req) > tol:
+                        v.fail(f"succeeded {succeeded!r} + excess {excess!r} != requested {req!r}")
+                else:
+                    _check_c02(v, case, mw.ids, req, calls)
+                if len(v.violations) > before:
+                    v.violations[before] = where + ": " + v.violations[before]
+                    return
 
     world.run(scenario)
 
